@@ -362,14 +362,18 @@ func (e *seqEnv) settle(c int) bool {
 		if e.iso[c] && !e.consumed[c] {
 			// done by its own operation while the parent is alive: the goroutine leaves through `<-isolated.done`
 			e.consumed[c] = true
-			e.wantSelf++
-			deadline := time.Now().Add(patience())
-			for atomic.LoadInt64(&selfSeen) < e.wantSelf {
-				if time.Now().After(deadline) {
-					expired()
-					return false
+			if !hooksPresent {
+				time.Sleep(20 * time.Millisecond)
+			} else {
+				e.wantSelf++
+				deadline := time.Now().Add(patience())
+				for atomic.LoadInt64(&selfSeen) < e.wantSelf {
+					if time.Now().After(deadline) {
+						expired()
+						return false
+					}
+					time.Sleep(50 * time.Microsecond)
 				}
-				time.Sleep(50 * time.Microsecond)
 			}
 		}
 		for d := range e.ctxs {
@@ -556,7 +560,29 @@ func seqLine(fields []string) string {
 	return strings.Join(out, " ")
 }
 
+// hooksPresent: does the repository under test contain the verifhook call sites of the context scopes?
+// (a scratch tree older than the hook commit does not; the sequential driver then cannot observe that a
+// propagation goroutine has left through `<-isolated.done` and gives it 20 ms instead — degraded, reported)
+var hooksPresent = true
+
+func probeHooks() {
+	p := contextscope.New()
+	i := contextscope.NewIsolated(p)
+	before := atomic.LoadInt64(&selfSeen)
+	i.Stop()
+	deadline := time.Now().Add(2 * time.Second)
+	for atomic.LoadInt64(&selfSeen) == before {
+		if time.Now().After(deadline) {
+			hooksPresent = false
+			fmt.Fprintln(os.Stderr, "note: verif hook call sites absent in the repository under test (degraded sequential settle, no gate)")
+			return
+		}
+		time.Sleep(100 * time.Microsecond)
+	}
+}
+
 func drive() {
+	probeHooks()
 	in := bufio.NewScanner(os.Stdin)
 	in.Buffer(make([]byte, 1<<20), 1<<24)
 	w := bufio.NewWriter(os.Stdout)
